@@ -50,7 +50,9 @@ structure Cfg where
   earlyRelease : Bool := false
 
 inductive Act
-  | start (ins : List Nat)  -- newCompactionState + compactJob.Run → mergeCompaction (inputs picked from current)
+  | start (ins : List Nat)  -- newCompactionState + compactJob.Run → mergeCompaction (inputs picked from current);
+                            --   `start []` … is a FLUSH: storeFlusher (one output, no inputs; Commit = builder.Close,
+                            --   commitEditLog, removePendingOutput — the same bookkeeping, order tied by tie_flushCommit)
   | open                    -- compactFlusher.beforeAdd → openCompactionOutputFile → newTableBuilder
   | finish                  -- finishCompactionOutputFile, Count() > 0: Close, addOutputFile, builder = nil
   | finishEmpty             -- finishCompactionOutputFile, Count() == 0: builder = nil only
@@ -75,8 +77,8 @@ def step (cfg : Cfg) (s : St) : Act → Option St
     else none
   | .open =>
     if s.wphase = .merging ∧ s.builder = none then
-      some { s with nextFile := s.nextFile + 1, pending := s.nextFile :: s.pending,
-                    disk := s.nextFile :: s.disk, builder := some s.nextFile }
+      some { s with nextFile := s.nextFile + 1, pending := s.pending ++ [s.nextFile],
+                    disk := s.disk ++ [s.nextFile], builder := some s.nextFile }
     else none
   | .finish =>
     if s.wphase = .merging then
@@ -90,17 +92,19 @@ def step (cfg : Cfg) (s : St) : Act → Option St
     if s.wphase = .merging ∧ s.builder ≠ none then some { s with builder := none } else none
   | .install =>
     if s.wphase = .merging ∧ s.builder = none then
-      some { s with wphase := .installed,
+      some { s with wphase := .installed, nextFile := s.nextFile + 1,  -- the commit logs NextFileNumber(n+1)
                     cur := s.cur.filter (· ∉ s.inputs) ++ s.outputs,
                     old := s.old ++ s.cur.filter (· ∈ s.inputs) }
     else none
   | .fail => if s.wphase = .merging then some { s with wphase := .failed } else none
   | .cleanup =>
     if s.wphase = .installed ∨ s.wphase = .failed then
-      let (disk, pend) := match s.builder with
-        | some n => (s.disk.filter (· ≠ n), s.pending.filter (· ≠ n))   -- Abandon + removePendingOutput
-        | none => (s.disk, s.pending)
-      some { s with wphase := .idle, disk := disk, pending := pend.filter (· ∉ s.outputs),
+      -- builder.Abandon() only closes the writer: the half-written table stays in the directory (unmarked,
+      -- unlisted) until the next deleteObsoleteFiles unlinks it
+      let pend := match s.builder with
+        | some n => s.pending.filter (· ≠ n)
+        | none => s.pending
+      some { s with wphase := .idle, pending := pend.filter (· ∉ s.outputs),
                     builder := none, outputs := [], inputs := [] }
     else none
   | .drop f => if f ∈ s.cur then none else some { s with old := s.old.filter (· ≠ f) }
